@@ -8,6 +8,9 @@ CHECKS = {
  "C02": dict(level="exploration", technique="property-based testing (proptest): metamorphic oracle f(f(x)) == f(x) on grammar-generated documents",
    text="Generated search with a purely metamorphic oracle (second formatting pass returns the first byte-for-byte; third pass checked to tell convergence from oscillation) through three doors and both extension settings.",
    note="No parser in the verdict; the scanner only classifies failures. Same known-finding policy as C01.", ref="7/C02"),
+ "C07": dict(level="exploration", technique="property-based testing (proptest): heading/list-biased generated documents, outline oracle over an independent scan with the quantifier's restructurings applied to the expected side",
+   text="Generated search over documents biased to heading level sequences and nested mixed lists (including items that start with a heading or a list and empty items); oracle: block tree equality modulo the three allowed restructurings plus per-scope heading-level rule (well-nested reproduced, otherwise re-nested).",
+   note="Trusted: pulldown-cmark for the input outline; restructuring rules implemented from the property's quantifier.", ref="7/C07"),
  "C03": dict(level="exploration", technique="property-based testing and fuzzing: hostile structured documents and scale family, crash/abort/hang oracle via panic hook and worker process status",
    text="Every generated document is loaded, formatted, searched, path-listed, probed at every line, updated and driven through the in-memory LSP server; oracle is absence of panic, abort and hang.",
    note="Release build without overflow checks (what ships). Hang detection is a 10^4x watchdog, not a termination proof.", ref="7/C03"),
